@@ -20,6 +20,12 @@ def run(tier):
     f3 = halfcommon.sweep(chk, "cxx14-fpexc")
     res3, nrec3 = halfcommon.validate(chk, "cxx14-fpexc", f3)
     nrec += nrec3
+    # ... and for the software path under a non-default floating-point environment: rounding direction upward, and
+    # denormals-are-zero / flush-to-zero (the conversions are integer algorithms, independent of the FPU state)
+    for extra in ("cxx14-table-upward", "cxx14-notable-daz"):
+        f4 = halfcommon.sweep(chk, extra)
+        res4, nrec4 = halfcommon.validate(chk, extra, f4)
+        nrec += nrec4
     chk.sample_lines(files[3], idx=(1, 2, 3, 200))
     chk.sample_lines(files[0], idx=(2, 65540))
     chk.assumptions += [
